@@ -69,9 +69,16 @@ PROPS = {
         assumptions=['crash model: a WriteAt is persisted per logical sector in any subset from the stated family, writes separated by Sync() are ordered; no bit rot inside a sector',
                      'all GUIDs are given so that "exactly old / exactly new" is computed from the specification, not from the library'],
     ),
+    'C11': dict(
+        level='exploration',
+        quick=dict(runs=[run('TestC11', 120, timeout=400, shrinktime='30s')]),
+        thorough=dict(runs=[run('TestC11', 4000, timeout=3000, shrinktime='120s')]),
+        assumptions=['calls that are no-ops by their own documentation (Mkdir of an existing directory, opening an existing file read-write without truncation) may return either way on writable filesystem types; on finalized iso9660/squashfs every listed call must fail',
+                     'in-memory state of a filesystem object after a rejected write is not constrained'],
+    ),
     'C12': dict(
         level='exploration',
-        quick=dict(runs=[run('TestC12', 80, timeout=400, shrinktime='30s')]),
+        quick=dict(runs=[run('TestC12', 500, timeout=400, shrinktime='30s')]),
         thorough=dict(runs=[run('TestC12', 2500, timeout=3000, shrinktime='120s')]),
         assumptions=['each type is created and re-opened with a logical sector setting it accepts (fat12/16/32, ext4: 512; iso9660: 2048 at create; squashfs: 4096); a type refused at Create is a discarded case',
                      'labels are compared exactly after trimming padding; an empty label means the format default'],
